@@ -22,13 +22,31 @@ FORWARD_NEXT_RE = re.compile(r"^<(std::vec::IntoIter<T, A>|std::slice::Iter<'a, 
 
 
 class EvalModel:
-    def __init__(self, prog):
+    def __init__(self, prog, inlined=False):
+        """inlined=True: one evaluator body = the view of `exec` with every evaluator helper (the bodies on the
+        exec recursion, other than exec itself) and every combinator closure inlined — the same program, read
+        without its helper boundaries (used when a rule cannot read the helper structure as written)"""
         self.prog = prog
+        self.inlined = inlined
         ex = [b for b in prog.bodies if b.name == EXEC]
         self.exec = ex[0] if ex else None
         self.reach = prog.reach([self.exec.id]) if self.exec else set()
         self.bodies = []
         if not self.exec:
+            return
+        if inlined:
+            rex = {self.exec.id}
+            changed = True
+            while changed:
+                changed = False
+                for bid, succ in prog.edges.items():
+                    if bid not in rex and any(x in rex for x in succ):
+                        rex.add(bid)
+                        changed = True
+            helpers = {bid for bid in self.reach if bid in rex and bid != self.exec.id}
+            self.ctx_writers()
+            v = prog.view(self.exec, keep=lambda g: g.id not in helpers or g.id in self._cw, tag='eval')
+            self.bodies = [v]
             return
         for bid in sorted(self.reach):
             b = prog.by_id[bid]
@@ -89,7 +107,7 @@ class EvalModel:
         if body.id in cw:
             return []
         out = [c for c in body.live_calls if c.ruid in cw]
-        if body.id in self._cw_direct:
+        if body.id in self._cw_direct or getattr(body, 'is_view', False):
             for c in body.live_calls:
                 if (c.callee or '').startswith('std::collections::HashMap::<K, V, S, A>::') and c.callee.split('::')[-1] in (
                         'insert', 'remove', 'clear', 'entry', 'retain', 'extend', 'get_mut', 'drain', 'try_insert', 'remove_entry'):
@@ -110,7 +128,7 @@ class EvalModel:
         if depth > 6:
             return None
         if o.kind == 'param':
-            if body.id == self.exec.id and o.data == 1:
+            if getattr(body, 'orig_id', body.id) == self.exec.id and o.data == 1:
                 return self._field_path(o.proj)
             # map through every call site of this helper inside the evaluator
             provs = set()
@@ -522,6 +540,15 @@ def _dominated_by_bool_switch(em, body, cond_call, branch_call):
             continue
         origins = trace_operand(body, t['discr'], through_calls=THROUGH)
         o = single_origin(origins)
+        if o is not None and o.kind == 'callres' and o.data.bb != cond_call.bb and o.data.ruid in em.prog.by_id \
+                and em.prog.by_id[o.data.ruid].locals[0]['ty'] == 'std::result::Result<bool, error::Error>' and o.data.args:
+            # `cond.exec(ctx)?.bool()?`: the Bool accessor applied to the condition's value
+            a = single_origin(trace_operand(body, o.data.args[0], through_calls=THROUGH))
+            if a is not None and a.kind == 'callres' and a.data.bb == cond_call.bb:
+                for v, tb in switch_edges(body, b):
+                    if edge_dominates(body, b, tb, branch_call.bb):
+                        return True
+            continue
         if o is None or o.kind != 'callres' or o.data.bb != cond_call.bb:
             continue
         # proj must end in (dc Bool)(f 0) after the Ok payload
@@ -536,7 +563,7 @@ def _dominated_by_bool_switch(em, body, cond_call, branch_call):
 def _arm_entry(em, body, variant):
     """entry block of the region that handles `variant`: in the dispatching body the target of
     the discriminant switch edge for that variant, elsewhere the body entry"""
-    if body.id != em.exec.id:
+    if getattr(body, 'orig_id', body.id) != em.exec.id:
         return 0
     adt = em.prog.f.adt_by_name.get('parser::ExprAST')
     if not adt:
@@ -598,3 +625,27 @@ def rule_floors(em):
     n_h = sum(len(em.handler_sites(b)) for b in em.bodies)
     obs.append(floor('ORDER', 'handler-sites', n_h, 5, 'function (context + global), prefix, infix, postfix handlers'))
     return obs
+
+
+def em_fallback(ctx_cache, prog, em, rule, *args, **kw):
+    """run an evaluator rule on the helper structure as written; if that leaves a violation, on the inlined
+    evaluator (same program); the first clean reading decides"""
+    first = rule(em, *args, **kw)
+    obs = first[0] if isinstance(first, tuple) else first
+    if not any(o.status == 'violated' for o in obs):
+        return first
+    if 'em_inl' not in ctx_cache:
+        ctx_cache['em_inl'] = EvalModel(prog, inlined=True)
+    em2 = ctx_cache['em_inl']
+    if not em2.bodies or not getattr(em2.bodies[0], 'is_view', False):
+        return first
+    try:
+        second = rule(em2, *args, **kw)
+    except Exception:
+        return first
+    obs2 = second[0] if isinstance(second, tuple) else second
+    if not any(o.status == 'violated' for o in obs2):
+        for o in obs2:
+            o.what = (o.what or '') + ' [read on the inlined evaluator]'
+        return second
+    return first
